@@ -43,6 +43,7 @@ func runC03(p *Program, r *Report) {
 	c14sideUse(p, r, "C03.side.use")
 	c04state(p, r, "C03.state")
 	cReasons(p, r, "C03.reasons")
+	c03flatefail(p, r, "C03.fail.flate")
 	// the echo of a received close frame is marshalled by bytesErr: whatever parseClosePayload accepts must be sendable (seed C03-M)
 	shareAs(r, "C03.echo.bytesErr", "C03.echo.bytesErr", func(sub *Report) { c02close(p, sub, "C03.echo") })
 	// frames that arrive in the same packet as the handshake (server side)
@@ -617,6 +618,54 @@ func nonEmpty(pa *Path, key string) (bool, bool) {
 		return false, true
 	}
 	return false, false
+}
+
+// c03flatefail: a compressed payload that is not a DEFLATE stream (flate.CorruptInputError) fails the connection with
+// 1007 like every other payload the reader cannot accept; returning the error alone leaves the rest of the payload in
+// the stream and the connection open (F40).
+func c03flatefail(p *Program, r *Report, rule string) {
+	fn := p.Func("msgReader.Read")
+	if fn == nil {
+		return
+	}
+	seen := 0
+	p.forAllPaths(r, rule, fn, "undecodable DEFLATE fails the connection", Opts{Inline: p.inlineSet("msgReader.discardRest"), Unroll: 1},
+		"when the error of a compressed message's reader is a flate.CorruptInputError (errors.As), msgReader.Read calls writeError(ctx, StatusInvalidFramePayloadData, …) before returning the error", func(pa *Path) (bool, string) {
+			if pa.End != "return" {
+				return true, ""
+			}
+			for _, as := range pa.Calls("errors.As") {
+				call, ok := as.Instr.(*ssa.Call)
+				if !ok || len(call.Call.Args) != 2 {
+					continue
+				}
+				tgt := call.Call.Args[1]
+				if mi, ok := tgt.(*ssa.MakeInterface); ok {
+					tgt = mi.X
+				}
+				pt, ok := tgt.Type().(*types.Pointer)
+				if !ok || !strings.HasSuffix(pt.Elem().String(), "compress/flate.CorruptInputError") {
+					continue
+				}
+				is, known := pa.Decided(as.Res.Key())
+				if !known || !is {
+					continue
+				}
+				seen++
+				we := pa.Calls("Conn.writeError")
+				if len(we) != 1 {
+					return false, "corrupt DEFLATE input recognised but the connection is not failed"
+				}
+				if c, ok := avInt(we[0].Args[1]); !ok || c != 1007 {
+					return false, "fails the connection with " + argKey(we[0], 1)
+				}
+				if retErr(pa) != "nonnil" {
+					return false, "no error returned"
+				}
+			}
+			return true, ""
+		})
+	r.Check(rule, "msgReader.Read", "the inflater's error is looked for", p.FuncPos(fn), seen > 0, "msgReader.Read asks errors.As for a flate.CorruptInputError on its error path", fmt.Sprintf("%d path(s) recognise it", seen))
 }
 
 func c03closepayload(p *Program, r *Report, rule string) {
